@@ -448,6 +448,21 @@ func (mexset *messageExchangeSet) count() int {
 	return count
 }
 
+// countCalls returns the number of active exchanges that belong to calls.
+// Ping exchanges (e.g. an active health check) are not calls.
+func (mexset *messageExchangeSet) countCalls() int {
+	mexset.RLock()
+	count := 0
+	for _, mex := range mexset.exchanges {
+		if mex.msgType != messageTypePingReq {
+			count++
+		}
+	}
+	mexset.RUnlock()
+
+	return count
+}
+
 // forwardPeerFrame forwards a frame from the peer to the appropriate message
 // exchange
 func (mexset *messageExchangeSet) forwardPeerFrame(frame *Frame) error {
